@@ -33,6 +33,8 @@ pub struct ParserState<'a> {
     strict: bool,
     file_ver: A2lVersion,
     pub(crate) a2mlspec: Vec<A2mlTypeSpec>,
+    // current nesting depth of blocks inside of uninterpreted IF_DATA
+    pub(crate) ifdata_nesting_depth: usize,
 }
 
 /// describes the current parser context, giving the name of the current element and its file and line number
@@ -184,6 +186,13 @@ pub enum ParserError {
         file_ver: A2lVersion,
     },
 
+    #[error("{filename}:{error_line}: the blocks inside of block {block} are nested too deeply")]
+    NestingTooDeep {
+        filename: String,
+        error_line: u32,
+        block: String,
+    },
+
     #[error("{filename}:{error_line}: /begin in block {block} is not followed by a valid tag")]
     InvalidBegin {
         filename: String,
@@ -293,6 +302,7 @@ impl<'a> ParserState<'a> {
             strict,
             file_ver: A2lVersion::V1_7_1,
             a2mlspec: Vec::new(),
+            ifdata_nesting_depth: 0,
         }
     }
 
